@@ -17,6 +17,13 @@ def freeze_case(r, stage, ending):
         a_events += [{"e": "newpart_next", "h": 0}]
     if stage >= 9:
         a_events += [{"e": "payfin_next", "h": 0, "out": "pending"}] + [{"e": "drain_step", "h": 0}] * (stage - 8)
+    # stragglers for the frozen hash: further HTLCs of A (some violating the policy, twice) arriving while A is stuck
+    for k in range(r.below(4)):
+        kind = r.below(4)
+        if kind == 0: a_events.append(b.htlc(invA, 1000, needA, expiry=3000, rel=max(0, pol[2] - 1)))
+        elif kind == 1: a_events.append(b.htlc(invA, 1000, max(0, needA - 5), expiry=3000, rel=pol[2] + 10))
+        elif kind == 2: a_events.append(b.htlc(invA, 1000, max(0, needA - 5), expiry=3000, rel=0))
+        else: a_events.append(b.htlc(invA, 1000, needA, expiry=3000, rel=pol[2] + 10))
     # B: a whole story, every macro restricted to hash 1
     pieces = split_amount(r, needB, 1 + r.below(2))
     b_events = []
